@@ -885,13 +885,21 @@ fn krate_empty_lib(k: &Crate) {
     k.write_src("lib.rs", "");
 }
 
-/// Remove what our scratch package left in the shared target dirs (fingerprints are keyed by
-/// the scratch crate's path, which contains the pid).
+/// Remove what earlier scratch packages left in the shared target dirs (fingerprints are keyed by
+/// the scratch crate's path, which contains the pid, so they are never reused).
 fn sweep_target(t: &Path) {
     for (sub, prefix) in [("debug/.fingerprint", "batch_scratch-"), ("debug/deps", "libbatch_scratch-"), ("debug/deps", "batch_scratch-")] {
         if let Ok(rd) = std::fs::read_dir(t.join(sub)) {
             for e in rd.flatten() {
-                if e.file_name().to_string_lossy().starts_with(prefix) {
+                // only stale entries: another `batch` process may be using the same target dir
+                let old = e
+                    .metadata()
+                    .and_then(|m| m.modified())
+                    .ok()
+                    .and_then(|t| t.elapsed().ok())
+                    .map(|d| d.as_secs() > 900)
+                    .unwrap_or(false);
+                if old && e.file_name().to_string_lossy().starts_with(prefix) {
                     let p = e.path();
                     let _ = if p.is_dir() { std::fs::remove_dir_all(&p) } else { std::fs::remove_file(&p) };
                 }
